@@ -6,9 +6,9 @@ from torchphysics.problem.spaces import Points, Space
 from .common import main, watched
 
 POOL = [  # named rows: x (2), t, k, u, w (2) -- integers so that "same content" is exact
-    {"x": [1.0, -2.0], "t": [0.5], "k": [2.0]}, {"x": [0.0, 1.0], "t": [-1.0], "k": [0.0]},
-    {"x": [-1.5, 0.5], "t": [2.0], "k": [-1.0]}, {"x": [2.0, 2.0], "t": [0.0], "k": [1.0]},
-    {"x": [0.5, -0.5], "t": [1.5], "k": [0.5]}, {"x": [-2.0, -1.0], "t": [-0.5], "k": [-2.0]},
+    {"x": [1.0, -2.0], "t": [0.5], "k": [2.0], "z": [-1.0]}, {"x": [0.0, 1.0], "t": [-1.0], "k": [0.0], "z": [1.5]},
+    {"x": [-1.5, 0.5], "t": [2.0], "k": [-1.0], "z": [0.5]}, {"x": [2.0, 2.0], "t": [0.0], "k": [1.0], "z": [-2.0]},
+    {"x": [0.5, -0.5], "t": [1.5], "k": [0.5], "z": [2.0]}, {"x": [-2.0, -1.0], "t": [-0.5], "k": [-2.0], "z": [0.0]},
 ]
 SC = 4096
 
@@ -31,6 +31,10 @@ def build(m):
             return M.Harmonic_FCN(i, o, max_frequenz=2, hidden=(5,))
         if kd == "poly":
             return M.Polynomial_FCN(i, o, polynomial_degree=2, hidden=(4,))
+        if kd == "polyres":        # residual connections through hidden layers of width 1
+            return M.Polynomial_FCN(i, o, polynomial_degree=2, hidden=(1, 1), res_connection=True)
+        if kd == "polyres3":
+            return M.Polynomial_FCN(i, o, polynomial_degree=1, hidden=(3, 3), res_connection=True)
         if kd == "qres":
             return M.QRES(i, o, hidden=(4, 3))
         if kd == "deepritz":
